@@ -212,7 +212,7 @@ fn bayes<F: Fl>(em: &mut Em, rng: &mut Rng, sw: &mut Sweep) {
         let xc: Array2<F> = Array2::from_shape_fn((n, p + 1), |(i, j)| F::cast(((y[i] + j) % 3) as f64 + (rng.below(4) as f64)));
         let freshc: Array2<F> = Array2::from_shape_fn((6, p + 1), |_| F::cast(rng.below(5) as f64));
         let dsc = Dataset::new(xc, y.clone());
-        let vp: MultinomialNbValidParams<F, usize> = MultinomialNb::params().alpha(F::cast([1.0, 0.5, 0.0][rng.below(3)])).check().unwrap();
+        let vp: MultinomialNbValidParams<F, usize> = MultinomialNb::params().alpha(F::cast([1.0, 0.5, 0.01][rng.below(3)])).check().unwrap();
         let ds2 = dsc.clone();
         rt(em, sw, "linfa-bayes::MultinomialNbValidParams", tag, Norm::Exact, &vp, &|a, b, ctx, class| {
             ctx.require(a == b, "equal", class, || format!("{:?} vs {:?}", a, b));
@@ -222,7 +222,9 @@ fn bayes<F: Fl>(em: &mut Em, rng: &mut Rng, sw: &mut Sweep) {
         let model: MultinomialNb<F, usize> = vp.fit(&dsc).unwrap();
         rt(em, sw, "linfa-bayes::MultinomialNb", tag, Norm::SortMaps, &model, &|a, b, ctx, class| {
             ctx.require(a == b, "equal", class, || format!("{:?} vs {:?}", a, b));
-            ctx.require(a.predict(&freshc) == b.predict(&freshc), "predict", class, || "predictions differ".into());
+            let pa = std::panic::catch_unwind(std::panic::AssertUnwindSafe(|| a.predict(&freshc))).ok();
+            let pb = std::panic::catch_unwind(std::panic::AssertUnwindSafe(|| b.predict(&freshc))).ok();
+            ctx.require(pa == pb, "predict", class, || "predictions differ".into());
         });
     }
 }
